@@ -119,6 +119,11 @@ def witness_scan(text, bg, min_ratio):
     return None
 
 
+def _REFPAIR(t, b, large):
+    from cm_colors import ColorPair
+    return ColorPair(tuple(t), tuple(b), large)
+
+
 REQ = {(False, False): 4.5, (True, False): 3.0, (False, True): 7.0, (True, True): 4.5}
 
 
@@ -155,7 +160,7 @@ def record_one(spec):
             ret, raised = None, type(ex).__name__
         chain_raw, _CHAIN = _CHAIN, None
         ev = {"e": "F", "mode": mode, "vr": bool(vr), "raised": raised, "ok": False, "okbool": False, "shape": "other",
-              "css": [], "lib": [], "de4": -1, "wit": [], "witDe4": -1, "witKind": "none", "chain": [], "haveChain": bool(have_wrap)}
+              "css": [], "lib": [], "de4": -1, "wit": [], "witDe4": -1, "witKind": "none", "chain": [], "haveChain": bool(have_wrap), "ref": []}
         if isinstance(ret, tuple) and len(ret) == 2:
             val, ok = ret
             ev["okbool"] = isinstance(ok, bool)
@@ -165,6 +170,13 @@ def record_one(spec):
             ev["css"], ev["lib"] = css, lib
             if css:
                 ev["de4"] = refs.de4(t_rgb, css)
+        if spec.get("ref"):
+            try:
+                rr = _REFPAIR(t_rgb, b_rgb, large).make_readable(mode=mode, very_readable=vr)
+                if isinstance(rr, tuple) and len(rr) == 2 and is_rgb_ints(rr[0]) and isinstance(rr[0], tuple):
+                    ev["ref"] = list(rr[0])
+            except Exception:
+                pass
         if spec.get("witness"):
             key = (large, bool(vr))
             if key not in wit_cache:
